@@ -2,6 +2,7 @@ SPECIFICATION TraceSpec
 CONSTANTS QCap = 10 MaxPend = 100000 MaxOps = 1000000
           NoInboundFilter = FALSE NoNullCheck = FALSE AnyoneOpens = FALSE RepIds = {}
           TrackHistory = TRUE FlowCache = "none" HostIps = {} HostPorts = {} SrcSet = {} DkSet = {}
+          StaleVerdict = "none" HopFollowsPeer = FALSE FlagChoices = {} SignedSrcs = {}
 INVARIANT TraceAccepted
 INVARIANT TypeOK
 INVARIANT EmitOnlyAllowed
